@@ -14,8 +14,11 @@ import (
 )
 
 // judgeLegacyApply compares the legacy package's Apply with the reference in the v4 dialect.
+var hugeIdxToks18 = []string{"4294967296", "4294967297", "9223372036854775807", "9223372036854775808", "18446744073709551615", "18446744073709551616", "18446744073709551617", "18446744073709551618",
+	"36893488147419103232", "36893488147419103233", "99999999999999999999", "-4294967297", "-9223372036854775809", "-18446744073709551617", "-18446744073709551618", "-36893488147419103233"}
+
 func judgeLegacyApply(c *core.Ctx, sc *SeqCase, neg bool) {
-	o := ref.Opts{NegIdx: neg, Legacy: true}
+	o := ref.Opts{NegIdx: neg, Legacy: true, HugeIndices: true}
 	want := ref.Eval(sc.Doc, sc.Ops, o)
 	res := ApplyLegacy(sc.DocText, sc.Patch(), neg, 0, "")
 	c.Eval(1)
@@ -142,6 +145,37 @@ func init() {
 				sc := &SeqCase{DocText: fixedDocs[s.doc], Doc: mustParse(fixedDocs[s.doc]), Ops: []ref.Op{s.op}, OpTexts: []string{s.text}}
 				judgeLegacyApply(c, sc, s.neg)
 			}},
+			{Name: "indices-beyond-the-int-range", Exhaustive: true, Count: func(core.Tier) int { return len(hugeIdxToks18) * 5 * 2 * 2 }, Run: func(c *core.Ctx, idx int) {
+				// an index token with more digits than an int holds addresses nothing: an error and no document
+				// (never element 0 or 1 after wrapping around)
+				tok := hugeIdxToks18[idx%len(hugeIdxToks18)]
+				idx /= len(hugeIdxToks18)
+				kind := idx % 5
+				idx /= 5
+				neg := idx%2 == 0
+				doc, arr := `["a","b","c"]`, ""
+				if idx/2 == 1 {
+					doc, arr = `{"l":["a","b","c"],"k":1}`, "/l"
+				}
+				var op ref.Op
+				var text string
+				path := arr + "/" + tok
+				switch kind {
+				case 0:
+					op, text = ref.Op{Kind: "remove", Path: path}, OpText("remove", path, "", "", false)
+				case 1:
+					op, text = ref.Op{Kind: "test", Path: path, Value: mustParse(`"a"`), HasValue: true}, OpText("test", path, "", `"a"`, true)
+				case 2:
+					op, text = ref.Op{Kind: "replace", Path: path, Value: mustParse(`"z"`), HasValue: true}, OpText("replace", path, "", `"z"`, true)
+				case 3:
+					op, text = ref.Op{Kind: "move", From: path, Path: arr + "/0"}, OpText("move", arr+"/0", path, "", false)
+				default:
+					op, text = ref.Op{Kind: "copy", From: path, Path: arr + "/0"}, OpText("copy", arr+"/0", path, "", false)
+				}
+				sc := &SeqCase{DocText: doc, Doc: mustParse(doc), Ops: []ref.Op{op}, OpTexts: []string{text}}
+				judgeLegacyApply(c, sc, neg)
+				c.Count("huge-index:cases")
+			}},
 			{Name: "random-sequences", Count: n(60000, 4500000), Run: func(c *core.Ctx, idx int) {
 				neg := c.R.Intn(2) == 0
 				sc := GenSeq(c.R, cfg, ref.Opts{NegIdx: neg, Legacy: true})
@@ -222,6 +256,20 @@ func init() {
 					docT = mprof.Object(c.R, 1+c.R.Intn(4))
 				}
 				judgeMerge(c, jpl.MergePatch, "legacy:", docT, genMergePatchFor(c.R, mprof, mustParse(docT)))
+			}},
+			{Name: "merge-strings-needing-escapes", Count: n(20000, 600000), Run: func(c *core.Ctx, idx int) {
+				// quotes, backslashes, a literal backslash followed by u003c, control characters, < > &: the result is
+				// re-encoded by the legacy package and must still be the RFC 7396 value
+				ep := gen.Hostile().With(func(p *gen.Profile) {
+					p.Keys = []string{"a", "b", "c", `q"r`, `b\s`, "x<y"}
+					p.Strings = append(append([]string{}, gen.HostileStrings...), `\u003c`, `a\u0026b`, `\\u003e`, `\`, `\"`, `\\`)
+					p.Width = 4
+					p.ScalarBias = 40
+					p.Wide = 0
+				})
+				docT := ep.Object(c.R, 1+c.R.Intn(3))
+				judgeMerge(c, jpl.MergePatch, "legacy:", docT, genMergePatchFor(c.R, ep, mustParse(docT)))
+				c.Count("escapes:cases")
 			}},
 			{Name: "create-universe-object-pairs", Exhaustive: true, Count: func(core.Tier) int { return universeObjN() * universeObjN() }, Run: func(c *core.Ctx, idx int) {
 				a, b := universeObjs[idx/len(universeObjs)], universeObjs[idx%len(universeObjs)]
